@@ -145,14 +145,39 @@ func c10History(t *testing.T, idx int, seed uint64) {
 				f := c10Filters[r.Intn(len(c10Filters))]
 				q := byte(r.Intn(3))
 				ops = append(ops, fmt.Sprintf("%s SUBSCRIBE %q q%d", id, f, q))
-				a, _ := c.subscribeB([]string{f}, []byte{q})
-				if a == nil || len(a.Codes) != 1 || a.Codes[0] > 2 {
+				// every fourth request also lists a filter the broker refuses (a '$' filter or a malformed one):
+				// it is answered 0x80 and is no part of the session, which must stay resumable
+				fs, qs := []string{f}, []byte{q}
+				if r.Intn(4) == 0 {
+					bad := []string{"$SYS/#", "p/b#", "p/#/x", "$share/g/p/1"}[r.Intn(4)]
+					if r.Bool() {
+						fs, qs = []string{bad, f}, []byte{1, q}
+					} else {
+						fs, qs = []string{f, bad}, []byte{q, 1}
+					}
+					out.Count("c10.subscribes_with_refused_filter", 1)
+				}
+				a, _ := c.subscribeB(fs, qs)
+				if a == nil || len(a.Codes) != len(fs) {
 					fail("c10:suback", fmt.Sprintf("%s: SUBACK %v", id, a))
 					return
 				}
-				c.subs[f] = a.Codes[0]
-				if !liveClean[id] {
-					stored[id][f] = a.Codes[0]
+				for i, code := range a.Codes {
+					if fs[i] != f {
+						if code != 0x80 {
+							fail("c10:suback", fmt.Sprintf("%s: filter %q granted (%d)", id, fs[i], code))
+							return
+						}
+						continue
+					}
+					if code > 2 {
+						fail("c10:suback", fmt.Sprintf("%s: SUBACK %v", id, a))
+						return
+					}
+					c.subs[f] = code
+					if !liveClean[id] {
+						stored[id][f] = code
+					}
 				}
 			case op < 6: // unsubscribe
 				var fs []string
